@@ -1,5 +1,5 @@
 use super::field_utils::{parse_name_and_address, parse_party_identifier};
-use super::swift_utils::{parse_bic, parse_max_length};
+use super::swift_utils::{parse_bic, parse_swift_chars};
 use crate::errors::ParseError;
 use crate::traits::SwiftField;
 use serde::{Deserialize, Serialize};
@@ -103,17 +103,34 @@ impl SwiftField for Field55B {
         let lines: Vec<&str> = input.split('\n').collect();
         let mut party_identifier = None;
         let mut location = None;
-        let mut line_idx = 0;
+        let mut current_idx = 0;
 
-        // Check for party identifier on first line
-        if !lines.is_empty() && lines[0].starts_with('/') {
-            party_identifier = Some(lines[0].to_string());
-            line_idx = 1;
+        // Optional party identifier on the first line ([/1!a][/34x]); kept with its leading slash
+        if let Some(party_id) = parse_party_identifier(lines[0])? {
+            party_identifier = Some(format!("/{}", party_id));
+            current_idx = 1;
         }
 
-        // Remaining line is location
-        if line_idx < lines.len() && !lines[line_idx].is_empty() {
-            location = Some(parse_max_length(lines[line_idx], 35, "Field55B location")?);
+        // At most one more line: the location (35x)
+        if lines.len() > current_idx + 1 {
+            return Err(ParseError::InvalidFormat {
+                message: "Field 55B has more lines than [party identifier] + location".to_string(),
+            });
+        }
+        if current_idx < lines.len() {
+            let loc = lines[current_idx];
+            if loc.is_empty() {
+                return Err(ParseError::InvalidFormat {
+                    message: "Field 55B location line is empty".to_string(),
+                });
+            }
+            if loc.len() > 35 {
+                return Err(ParseError::InvalidFormat {
+                    message: "Field 55B location exceeds 35 characters".to_string(),
+                });
+            }
+            parse_swift_chars(loc, "Field 55B location")?;
+            location = Some(loc.to_string());
         }
 
         Ok(Field55B {
